@@ -142,6 +142,28 @@ type ruleEnv struct {
 	groups string
 }
 
+var etcNamesCache = map[string][]string{}
+
+// etcNames lists the account / group names of a passwd-format file that are not numbers.
+func etcNames(path string) []string {
+	if n, ok := etcNamesCache[path]; ok {
+		return n
+	}
+	var out []string
+	if b, err := os.ReadFile(path); err == nil {
+		for _, l := range strings.Split(string(b), "\n") {
+			f := strings.SplitN(l, ":", 2)
+			if len(f) == 2 && f[0] != "" && !strings.HasPrefix(f[0], "#") {
+				if _, err := strconv.ParseUint(f[0], 10, 64); err != nil {
+					out = append(out, f[0])
+				}
+			}
+		}
+	}
+	etcNamesCache[path] = out
+	return out
+}
+
 func envFor(r rule.Rule) ruleEnv {
 	e := ruleEnv{users: "-", groups: "-"}
 	var us, gs []string
@@ -761,14 +783,30 @@ func genFilter(rng *rand.Rand, name, op, list string) (Occ, bool) {
 	}
 	switch name {
 	case "uid", "euid", "suid", "fsuid", "auid", "obj_uid":
-		switch rng.Intn(6) {
+		switch rng.Intn(8) {
 		case 0:
 			oc.RHS, oc.Word = "unset", u32(0xFFFFFFFF)
 		case 1:
 			oc.RHS, oc.Word = "-1", u32(0xFFFFFFFF)
 		case 2:
-			oc.RHS, oc.Word = "root", u32(0)
-			if _, err := user.Lookup("root"); err != nil {
+			// a name the OS user database knows (os/user is the oracle for the id)
+			n := etcNames("/etc/passwd")
+			nm := "root"
+			if len(n) > 0 {
+				nm = n[rng.Intn(len(n))]
+			}
+			oc.RHS = nm
+			if u, err := user.Lookup(nm); err != nil {
+				ok = false
+			} else if id, err := strconv.ParseUint(u.Uid, 10, 32); err != nil {
+				ok = false
+			} else {
+				oc.Word = u32(uint32(id))
+			}
+		case 3:
+			// out of range for uint32 (a range error, not a name), or a name nobody has
+			oc.RHS = []string{"4294967296", "99999999999999999999", "nosuchuser_zz", "+5", "0x10", "1_0"}[rng.Intn(6)]
+			if _, err := user.Lookup(oc.RHS); err != nil || oc.RHS == "4294967296" || oc.RHS == "99999999999999999999" {
 				ok = false
 			}
 		default:
@@ -776,8 +814,30 @@ func genFilter(rng *rand.Rand, name, op, list string) (Occ, bool) {
 			oc.RHS, oc.Word = strconv.FormatUint(uint64(v), 10), u32(v)
 		}
 	case "gid", "egid", "sgid", "fsgid", "obj_gid":
-		v := []uint32{0, 1, 1000, 0x7FFFFFFF, 0x80000000, 0xFFFFFFFF, rng.Uint32()}[rng.Intn(7)]
-		oc.RHS, oc.Word = strconv.FormatUint(uint64(v), 10), u32(v)
+		switch rng.Intn(6) {
+		case 0:
+			n := etcNames("/etc/group")
+			nm := "root"
+			if len(n) > 0 {
+				nm = n[rng.Intn(len(n))]
+			}
+			oc.RHS = nm
+			if g, err := user.LookupGroup(nm); err != nil {
+				ok = false
+			} else if id, err := strconv.ParseUint(g.Gid, 10, 32); err != nil {
+				ok = false
+			} else {
+				oc.Word = u32(uint32(id))
+			}
+		case 1:
+			oc.RHS = []string{"4294967296", "99999999999999999999", "nosuchgroup_zz", "-1", "unset", "+5", "0x10"}[rng.Intn(7)]
+			if _, err := user.LookupGroup(oc.RHS); err != nil || oc.RHS == "4294967296" || oc.RHS == "99999999999999999999" {
+				ok = false
+			}
+		default:
+			v := []uint32{0, 1, 1000, 0x7FFFFFFF, 0x80000000, 0xFFFFFFFF, rng.Uint32()}[rng.Intn(7)]
+			oc.RHS, oc.Word = strconv.FormatUint(uint64(v), 10), u32(v)
+		}
 	case "exit":
 		switch rng.Intn(4) {
 		case 0:
